@@ -124,10 +124,11 @@ example (t : String) (ht : factoryOfText libD t = .ok (.ast [])) :
     Requested st libD libD ∧ ∃ t' decls, st.files.lookup (libPath libD) = some (.text t') ∧
       DefinesLibrary t' libD decls := by
   intro st
+  have ht' : factoryOfText [LibElem.ident "d"] t = .ok (.ast []) := ht
   have hnew : libLookup (getLibrary 3 st libD none).2.factories libD = some (.ast []) := by
     rw [getLibrary_succ_eq]
     simp [st, demo, libLookup, libA, libB, libD, findFactory, instantiate, newLibrary, cacheInstance,
-      evalLibraryDef, evalLibDecls, Store.newFrame, libInsert, libPath, LibElem.toString, List.lookup, ht]
+      evalLibraryDef, evalLibDecls, Store.newFrame, libInsert, libPath, LibElem.toString, List.lookup, ht', pure, Except.pure]
   obtain ⟨hq, t', decls, h1, -, -, h2⟩ := (new_factories_only_requested_names 3 st).1 libD none libD _ hnew
     (by simp [st, demo, libLookup, libA, libB, libD])
   exact ⟨hnew, hq, t', decls, h1, h2⟩
@@ -159,12 +160,10 @@ theorem wrong_name_file_not_found (fuel : Nat) (st : State) (n : LibName) (loc :
 /-- `d.sld` is an empty file: it defines no library `(d)`; importing `(d)` is `libNotFound` and
 nothing is registered -/
 example : getLibrary 5 demo libD none = (.error (.libNotFound, none), demo) := by
-  have hw : ¬ ∃ decls, DefinesLibrary "" libD decls := by
-    rintro ⟨decls, s, env, d, s', loc, env', hs, hnd, hts⟩
-    sorry
   exact (wrong_name_file_not_found 4 demo libD none ""
     (by simp [demo, libLookup]) (by simp [demo, libLookup, libA, libB, libD])
-    (by simp [demo, libPath, libD, LibElem.toString, List.lookup]) hw).2 (factoryOfText_empty libD)
+    (by simp [demo, libPath, libD, LibElem.toString, List.lookup])
+    (not_definesLibrary_empty libD)).2 (factoryOfText_empty libD)
 
 /-! ## 3. which instances a load may add -/
 
